@@ -742,7 +742,9 @@ impl Context {
         ty: TypeNodeId,
         is_global: bool,
     ) {
-        let ty = InferContext::substitute_type(ty);
+        // Records are laid out with their keys sorted, whatever order a type
+        // annotation lists them in: field offsets must come from that layout.
+        let ty = self.canonical_record_type_id(ty);
         let TypedPattern { pat, .. } = pattern;
         let span = pattern.to_span();
         match (pat, ty.to_type()) {
